@@ -27,12 +27,12 @@ var (
 )
 
 type c07Sess struct {
-	sid       string
-	tag, srv  string
-	valid     []int
-	srvKnows  bool
-	cliAlive  bool // not invalidated / dropped on the client
-	exp       int
+	sid      string
+	tag, srv string
+	valid    []int
+	srvKnows bool
+	cliAlive bool // not invalidated / dropped on the client
+	exp      int
 }
 
 type c07World struct {
@@ -382,7 +382,7 @@ func c07BFS(depth, maxSessions int, res *vlib.Result) {
 func C07Plan() *vlib.Plan {
 	p := &vlib.Plan{
 		Property: "C07", Level: "model_checking", Workers: 1,
-		Rule: "E-BFS over client-side histories: 12 handshake events (tag in {'',T1,T2} x server in {A,B} x command in {5,6}; A declares ValidCommands {5}, B {5,6}) + restart A/B (server forgets), break the next resumption exchange (request lost / reply lost), advance virtual time (lease+60, duration+60), invalidate the newest session, sweep expired. Histories are replayed on a fresh client cache against two real servers; canonical state = multiset of (tag, server, ValidCommands, status, server-knows) + pending break. Oracle: reference map (tag, address, command) -> sessions that may be reused; the request the server receives (parsed off the wire) must name only an allowed session; after a failed resumption the session and every route to it are gone; after every event every route in the real cache must be allowed by the reference. Only safety is demanded (not resuming is never a violation).",
+		Rule:   "E-BFS over client-side histories: 12 handshake events (tag in {'',T1,T2} x server in {A,B} x command in {5,6}; A declares ValidCommands {5}, B {5,6}) + restart A/B (server forgets), break the next resumption exchange (request lost / reply lost), advance virtual time (lease+60, duration+60), invalidate the newest session, sweep expired. Histories are replayed on a fresh client cache against two real servers; canonical state = multiset of (tag, server, ValidCommands, status, server-knows) + pending break. Oracle: reference map (tag, address, command) -> sessions that may be reused; the request the server receives (parsed off the wire) must name only an allowed session; after a failed resumption the session and every route to it are gone; after every event every route in the real cache must be allowed by the reference. Only safety is demanded (not resuming is never a violation).",
 		Assume: []string{"virtual time by re-storing entries with shifted expirations; judgements within 30 s of an expiry are skipped", "sequential, one process (server cache is process-global)"},
 	}
 	p.Gen = func(tier string, yield func(vlib.Case)) {
